@@ -69,6 +69,7 @@ pub fn main(args: &[String]) -> i32 {
                 Some("sched-agent") => crate::esched::agent_main(),
                 Some("bin") => crate::ebin::worker_main(),
                 Some("corpus") => crate::ecorpus::worker_main(),
+                Some("size") => crate::esize::worker_main(),
                 other => eprintln!("unknown worker kind {other:?}"),
             }
             0
@@ -261,7 +262,34 @@ fn alpha(n_clients: u8, anc_max: u8, foreign: bool, dup: bool, snapshots: bool, 
         snapshots,
         ages: ages.to_vec(),
         big_payload: false,
+        huge_payload: false,
     }
+}
+
+/// One limit-sized payload (version or snapshot) anywhere in a short history of one client:
+/// whatever size threshold a backend or a handler may have below the limit is crossed.
+#[allow(dead_code)]
+fn huge_run(quick: bool, specs: Vec<crate::sut::SutSpec>) -> (String, SeqParams) {
+    let mut a = alpha(1, 2, false, false, true, &[]);
+    a.huge_payload = true;
+    (
+        "one client, one payload of exactly the 100 MiB limit anywhere in the history".to_string(),
+        SeqParams {
+            alphabet: a,
+            cfg: Config { days: 2, versions: 2 },
+            specs,
+            max_depth: if quick { 3 } else { 4 },
+            unmerged_depth: 1,
+            monitors: vec![],
+            reopen_probe: false,
+            solo_runs: false,
+            max_states: 6000,
+            wall_cap_s: if quick { 60.0 } else { 1500.0 },
+            threads: threads().min(4),
+            seed: seed(),
+            reopen_subsets_up_to: 0,
+        },
+    )
 }
 
 /// The exploration runs that decide `id` at `tier`.
@@ -470,6 +498,174 @@ pub fn absorb_seq(rep: &mut Report, id: &str, name: &str, p: &SeqParams, r: &Seq
     }));
 }
 
+/// E-SIZE part of the history properties: implementation x size ladder x place of the sized
+/// payload, complete product; findings are kept when tagged with `id`.
+pub fn size_part(rep: &mut Report, id: &str, tier: &str) {
+    let quick = tier != "thorough";
+    let sizes = crate::esize::ladder(quick);
+    let specs = ["MemLib", "SqlLib", "SqlLibReopen", "MemHttp", "SqlHttp"];
+    let mut tasks = vec![];
+    for &sz in sizes.iter().rev() {
+        for sp in specs {
+            for pl in 0..crate::esize::PLACES.len() {
+                // quick tier: the limit-sized payload as first version of a new client and as
+                // version + snapshot (the other two places are contained in the latter)
+                if quick && sz == crate::alphabet::HUGE_BYTES && (pl == 1 || pl == 2) {
+                    continue;
+                }
+                tasks.push(json!({"spec": sp, "size": sz, "place": pl}));
+            }
+        }
+    }
+    let mut pool = crate::pool::Pool::spawn(threads().min(8), "size", &json!({"seed": seed()}));
+    let res = pool.map(&tasks);
+    let (mut steps, mut failures, mut kept) = (0u64, 0u64, 0u64);
+    for (t, r) in tasks.iter().zip(res.iter()) {
+        match r {
+            Ok(v) => {
+                steps += v["steps"].as_u64().unwrap_or(0);
+                failures += v["failures"].as_u64().unwrap_or(0);
+                for f in v["findings"].as_array().cloned().unwrap_or_default() {
+                    if f["tags"].as_array().map(|a| a.iter().any(|x| x == id)).unwrap_or(false) {
+                        kept += 1;
+                        rep.violations.push(Violation {
+                            property: id.to_string(),
+                            signature: format!("esize|{}|{}|{}|{}", f["class"].as_str().unwrap_or(""), f["impl"].as_str().unwrap_or(""), f["place"].as_str().unwrap_or(""), size_class(f["size"].as_u64().unwrap_or(0))),
+                            message: f["msg"].as_str().unwrap_or("").to_string(),
+                            replay: json!({"engine": "esize", "task": t, "class": f["class"], "impl": f["impl"]}),
+                        });
+                    }
+                }
+            }
+            Err(e) => rep.machinery_errors.push(format!("E-SIZE task {t}: {e}")),
+        }
+    }
+    rep.cov("size_ladder", json!({
+        "rule": "one payload of each listed size at each place (first version of a new client / version on a chain / snapshot / both) in a scripted history that goes on afterwards (accepted and conflicting uploads, declined snapshot, reads, walk from the base, reopen + walk, stored content compared with the model), on every implementation; complete product",
+        "sizes": sizes, "places": crate::esize::PLACES, "implementations": specs,
+        "histories": tasks.len(), "requests_compared_with_model": steps, "failure_answers": failures, "findings_for_this_property": kept,
+    }));
+    rep.add_count("traces_validated_against_impl", tasks.len() as u64);
+}
+
+fn size_class(n: u64) -> String {
+    if n <= 1 << 16 { "<=64KiB".into() } else if n <= 1 << 20 { "<=1MiB".into() } else if n <= 1 << 24 { "<=16MiB".into() } else { ">16MiB".into() }
+}
+
+fn size_replay(id: &str, file: &str, v: &Value) -> i32 {
+    let t = &v["replay"]["task"];
+    let res = crate::esize::run_one(t["spec"].as_str().unwrap_or(""), t["size"].as_u64().unwrap_or(1) as usize, t["place"].as_u64().unwrap_or(0) as usize, seed());
+    for f in res["findings"].as_array().cloned().unwrap_or_default() {
+        if f["class"] == v["replay"]["class"] && f["tags"].as_array().map(|a| a.iter().any(|x| x == id)).unwrap_or(false) {
+            println!("VIOLATION property={id} replay={file}");
+            println!("  {}", f["msg"].as_str().unwrap_or(""));
+            return 1;
+        }
+    }
+    println!("replay of {file}: no violation of {id}");
+    0
+}
+
+/// C08 after a storage failure: the request that failed is followed, on the same server object,
+/// by GetChild(latest) and AddVersion(latest) - the two halves of the equivalence must still
+/// agree with each other and with what is stored (every single fault plan of the storage-trait
+/// and SQL-statement layers, every request kind, four states, library and HTTP entry).
+fn c08_fault_part(rep: &mut Report, tier: &str) {
+    use crate::efault::FOp;
+    let quick = tier != "thorough";
+    let states = ["one-version", "chain+snapshot"];
+    let mut tasks = vec![];
+    for layer in if quick { vec!["trait", "sql"] } else { vec!["trait", "sql", "vfs"] } {
+        for spec in ["SqlLib", "SqlHttp"] {
+            for state in states {
+                for op in FOp::all() {
+                    if matches!(op, FOp::As50k | FOp::Av10k) && quick {
+                        continue;
+                    }
+                    tasks.push(json!({"layer": layer, "spec": spec, "state": state, "op": op.name(), "double": false, "window": 0}));
+                }
+            }
+        }
+    }
+    let mut pool = crate::pool::Pool::spawn(threads(), "fault", &json!({"seed": seed()}));
+    let results = pool.map(&tasks);
+    drop(pool);
+    let (mut runs, mut kept) = (0u64, 0u64);
+    for (k, r) in results.iter().enumerate() {
+        match r {
+            Ok(res) => {
+                if let Some(e) = res["error"].as_str() {
+                    rep.machinery_errors.push(format!("{}: {e}", tasks[k]));
+                    continue;
+                }
+                runs += res["runs"].as_u64().unwrap_or(0);
+                for f in res["findings"].as_array().cloned().unwrap_or_default() {
+                    let msg = f["msg"].as_str().unwrap_or("");
+                    if f["class"] == "later-request-not-served" && (msg.contains("AddVersion(") || msg.contains("GetChild(")) {
+                        kept += 1;
+                        rep.violations.push(Violation {
+                            property: "C08".into(),
+                            signature: format!("efault|{}|{}|{}|after-failure", tasks[k]["layer"].as_str().unwrap_or(""), tasks[k]["spec"].as_str().unwrap_or(""), tasks[k]["op"].as_str().unwrap_or("")),
+                            message: format!("[{} layer, {}, state {}, failed request {}] {} — fault {}", tasks[k]["layer"].as_str().unwrap_or(""), tasks[k]["spec"].as_str().unwrap_or(""), tasks[k]["state"].as_str().unwrap_or(""), tasks[k]["op"].as_str().unwrap_or(""), msg, f["fault"]),
+                            replay: json!({"engine": "efault", "task": tasks[k], "fault": f["fault"]}),
+                        });
+                    }
+                }
+            }
+            Err(e) => rep.machinery_errors.push(format!("fault worker: {e}")),
+        }
+    }
+    rep.cov("after_storage_failure", json!({
+        "rule": "every single fault plan (k-th storage-trait call fails before/after taking effect; one kind of SQL statement aborted; thorough: k-th VFS call) of every request kind in two states, library and HTTP entry; afterwards, on the same server object with faults off: GetChild(latest) must answer not-found and AddVersion(latest) must be accepted, as the stored state demands",
+        "scenarios": tasks.len(), "fault_runs": runs, "findings_for_this_property": kept,
+    }));
+}
+
+/// C09 under overlap: uploads of two different clients in flight on one worker, every
+/// interleaving of their chunk deliveries (the in-process service's real handlers; the order of
+/// deliveries is decided by the harness). What each client reads back must be exactly what that
+/// client uploaded - nothing of the other's, nothing missing.
+fn c09_overlap_part(rep: &mut Report, tier: &str) {
+    let quick = tier != "thorough";
+    let mut tasks = vec![];
+    for spec in ["MemHttp", "SqlHttp"] {
+        for kinds in [["version", "version"], ["snapshot", "snapshot"], ["version", "snapshot"]] {
+            tasks.push(json!({"spec": spec, "route": "interleaved", "items": [], "interleaved": kinds, "max_chunks": if quick { 3 } else { 4 }}));
+        }
+    }
+    let mut pool = crate::pool::Pool::spawn(threads().min(tasks.len()), "payload", &json!({"seed": seed()}));
+    let results = pool.map(&tasks);
+    drop(pool);
+    let mut n = 0u64;
+    for (k, r) in results.iter().enumerate() {
+        match r {
+            Ok(res) => {
+                if let Some(e) = res["error"].as_str() {
+                    rep.machinery_errors.push(format!("{}: {e}", tasks[k]));
+                    continue;
+                }
+                n += res["interleavings"].as_u64().unwrap_or(0);
+                for f in res["findings"].as_array().cloned().unwrap_or_default() {
+                    rep.violations.push(Violation {
+                        property: "C09".into(),
+                        signature: format!("epayload|{}|{}", tasks[k]["spec"].as_str().unwrap_or(""), f["class"].as_str().unwrap_or("")),
+                        message: format!("[{} uploads of clients A and B overlapping: {}] {}", tasks[k]["spec"].as_str().unwrap_or(""), f["payload"].as_str().unwrap_or(""), f["msg"].as_str().unwrap_or("")),
+                        replay: json!({"engine": "epayload", "task": tasks[k]}),
+                    });
+                }
+            }
+            Err(e) => rep.machinery_errors.push(format!("payload worker: {e}")),
+        }
+    }
+    rep.cov("overlapping_uploads_of_two_clients", json!({
+        "rule": "two uploads (version/version, snapshot/snapshot, version/snapshot) of clients A and B in flight on one worker of the real actix service, 1..max chunks each, every interleaving of the chunk deliveries and ends of body; each client then reads back exactly its own bytes",
+        "interleavings": n, "scenarios": tasks.len(),
+    }));
+    rep.add_count("traces_validated_against_impl", n);
+}
+
+const SIZE_PART: [&str; 8] = ["C01", "C02", "C07", "C08", "C10", "C11", "C13", "C14"];
+
 fn seq_check(id: &str, tier: &str, replay: Option<&str>) -> i32 {
     let mut rep = Report::new(id, tier, "model_checking");
     let runs = seq_runs(id, tier);
@@ -502,6 +698,15 @@ fn seq_check(id: &str, tier: &str, replay: Option<&str>) -> i32 {
         let quick = tier != "thorough";
         run_sched(&mut rep, id, &extra, if quick { 2 } else { 3 }, if quick { 1500 } else { 60000 }, false);
     }
+    if SIZE_PART.contains(&id) {
+        size_part(&mut rep, id, tier);
+    }
+    if id == "C08" {
+        c08_fault_part(&mut rep, tier);
+    }
+    if id == "C09" {
+        c09_overlap_part(&mut rep, tier);
+    }
     rep.cov("explanation", json!("every state and transition counted is an execution of the real Server / actix handler / storage code; the reference model is compared on each one"));
     rep.assume("bounded depth and alphabet as listed under coverage.runs; states with equal canonical model state are merged after their stored state was compared with the model");
     rep.assume("random version ids enter only through equality (renamed to symbols)");
@@ -514,6 +719,37 @@ fn seq_replay(id: &str, tier: &str, file: &str, runs: &[(String, SeqParams)]) ->
         return 2;
     };
     let v: Value = serde_json::from_str(&s).unwrap_or(Value::Null);
+    if v["replay"]["engine"] == "esize" {
+        return size_replay(id, file, &v);
+    }
+    if v["replay"]["engine"] == "epayload" {
+        let mut pool = crate::pool::Pool::spawn(1, "payload", &json!({"seed": seed()}));
+        let r = pool.map(&[v["replay"]["task"].clone()]);
+        if let Some(Ok(res)) = r.first() {
+            if let Some(f) = res["findings"].as_array().and_then(|a| a.first()) {
+                println!("VIOLATION property={id} replay={file}");
+                println!("  {}", f["msg"].as_str().unwrap_or(""));
+                return 1;
+            }
+        }
+        println!("replay of {file}: no violation of {id}");
+        return 0;
+    }
+    if v["replay"]["engine"] == "efault" {
+        let mut t = v["replay"]["task"].clone();
+        t["only"] = v["replay"]["fault"]["plan"].clone();
+        let mut pool = crate::pool::Pool::spawn(1, "fault", &json!({"seed": seed()}));
+        let r = pool.map(&[t]);
+        if let Some(Ok(res)) = r.first() {
+            if let Some(f) = res["findings"].as_array().and_then(|a| a.first()) {
+                println!("VIOLATION property={id} replay={file}");
+                println!("  {}", f["msg"].as_str().unwrap_or(""));
+                return 1;
+            }
+        }
+        println!("replay of {file}: no violation of {id}");
+        return 0;
+    }
     if v["replay"]["engine"] == "esched" {
         let mut pool = crate::pool::Pool::spawn(1, "sched", &json!({"seed": seed()}));
         let r = pool.map(&[json!({"scenario": v["replay"]["scenario"], "replay": v["replay"]["choices"]})]);
@@ -996,7 +1232,10 @@ fn c04_check(tier: &str, replay: Option<&str>) -> i32 {
             // histories with the quick tier's adversary (the count of images grows 8x with tearing)
             let nreq = h.iter().filter(|c| **c != crate::ecrash::COp::HoldConnection).count();
             let (cap_h, pl_h, torn_h) = if quick { (cap, pair_limit, false) } else if nreq <= 1 { (cap, pair_limit, true) } else if nreq == 2 { (10, 24, false) } else { (8, 16, false) };
-            tasks.push(json!({"hist": names, "part": part, "parts": pp, "cap": cap_h, "pair_limit": pl_h, "torn": torn_h}));
+            // recovery through the start-up path of the real executable: every process-crash
+            // image; thorough: every image of the histories of up to two requests without tearing
+            let via_exec = if !quick && nreq <= 2 && !torn_h { 2 } else { 1 };
+            tasks.push(json!({"hist": names, "part": part, "parts": pp, "cap": cap_h, "pair_limit": pl_h, "torn": torn_h, "via_exec": via_exec}));
         }
     }
     let mut pool = crate::pool::Pool::spawn(threads(), "crash", &json!({"seed": seed()}));
@@ -1013,7 +1252,7 @@ fn c04_check(tier: &str, replay: Option<&str>) -> i32 {
                 if let Some(e) = res["conformance_error"].as_str() {
                     rep.machinery_errors.push(format!("device model does not conform for {:?}: {e}", tasks[k]["hist"]));
                 }
-                for key in ["crash_points", "images", "distinct_images", "process_images", "power_images", "torn_images", "recovered_before", "recovered_after", "bounded_points", "long_epoch_points"] {
+                for key in ["crash_points", "images", "distinct_images", "process_images", "power_images", "torn_images", "recovered_before", "recovered_after", "bounded_points", "long_epoch_points", "exec_recoveries"] {
                     rep.add_count(key, res[key].as_u64().unwrap_or(0));
                 }
                 let mp = rep.coverage.get("max_unsynced_writes").and_then(|v| v.as_u64()).unwrap_or(0).max(res["max_pending"].as_u64().unwrap_or(0));
@@ -1038,7 +1277,7 @@ fn c04_check(tier: &str, replay: Option<&str>) -> i32 {
     rep.cov("histories", json!(hists.len()));
     rep.cov("evaluations", json!(images));
     rep.cov("distinct_nontrivial", json!(distinct));
-    rep.cov("rule", json!(format!("one evaluation = one crash image (process-crash image, or power-loss image = last synced content of every file + a subset of the later unsynced writes/truncates in log order) of one crash point (every state-changing VFS call and every request boundary) of one history, recovered by the real SqliteStorage::new + integrity_check + full protocol read-back + one more AddVersion/AddSnapshot per client; all subsets when at most {cap} writes are unsynced, otherwise every prefix, every all-but-one and only-one, and all-but-two / only-two up to {pair_limit} unsynced writes; above 64 unsynced writes (multi-megabyte commits) only the deviations from a prefix, the prefixes themselves being the process-crash images of earlier crash points; distinct = images that differ in bytes or in what had been acknowledged (identical ones are recovered once)")));
+    rep.cov("rule", json!(format!("one evaluation = one crash image (process-crash image, or power-loss image = last synced content of every file + a subset of the later unsynced writes/truncates in log order) of one crash point (every state-changing VFS call and every request boundary) of one history, recovered by the real SqliteStorage::new + integrity_check + full protocol read-back + one more AddVersion/AddSnapshot per client; process-crash images (thorough: every image of histories of up to two requests) are in addition recovered the way an operator does it - the real executable built from /repo is started on the image, queried over TCP, killed, and what it leaves must recover to the same state (count: exec_recoveries); all subsets when at most {cap} writes are unsynced, otherwise every prefix, every all-but-one and only-one, and all-but-two / only-two up to {pair_limit} unsynced writes; above 64 unsynced writes (multi-megabyte commits) only the deviations from a prefix, the prefixes themselves being the process-crash images of earlier crash points; distinct = images that differ in bytes or in what had been acknowledged (identical ones are recovered once)")));
     rep.cov("samples", json!(samples));
     rep.cov("exhaustive", json!(true));
     rep.cov("subset_cap_log2", json!(cap));
